@@ -23,7 +23,12 @@ WithCN == {[conns |-> k, msgs |-> m, pattern |-> "interleaved", via |-> v, holdc
 \* a further handler, then the other connections receive their messages
 PanicReg == {[conns |-> k, msgs |-> 2, pattern |-> "burst", via |-> v, holdc |-> 0, holdi |-> 0, flavour |-> "panicreg"] :
                k \in 2..3, v \in {"server", "dial"}}
-Init == s \in Extra \cup RegPending \cup WithCN \cup PanicReg \cup {[conns |-> k, msgs |-> m, pattern |-> p, via |-> v, holdc |-> hc, holdi |-> hi, flavour |-> fl] :
+\* a long burst behind a held handler (more messages than any queue in front of the handler could hold)
+Long == {[conns |-> 1, msgs |-> 24, pattern |-> "burst", via |-> v, holdc |-> 1, holdi |-> 1, flavour |-> "req"] : v \in {"server", "dial"}}
+\* "cneof": CloseNotify was requested by the first handler; the second and third message arrive together, the peer
+\* disconnects while the second handler is held: the third is handled after the second has returned
+CnEof == {[conns |-> 1, msgs |-> 3, pattern |-> "interleaved", via |-> v, holdc |-> 1, holdi |-> 2, flavour |-> "cneof"] : v \in {"server", "dial"}}
+Init == s \in Extra \cup RegPending \cup WithCN \cup PanicReg \cup Long \cup CnEof \cup {[conns |-> k, msgs |-> m, pattern |-> p, via |-> v, holdc |-> hc, holdi |-> hi, flavour |-> fl] :
                  k \in 1..MaxConns, m \in 2..MaxMsgs, p \in {"burst", "bytes", "interleaved"}, v \in {"server", "dial", "tcp"},
                  hc \in 0..MaxConns, hi \in 0..MaxMsgs, fl \in {"req", "ans", "mixed", "dwr"}}
 Next == UNCHANGED s
